@@ -10,7 +10,9 @@ Oracle (independent of the Lean model): afterwards lf.lnL >= max(lnL before, eve
 within 1e-9*max(1,|lnL|); every free parameter is within its declared bounds; MaximumEvaluationsReached never leaves
 lf.optimise; an exception leaves only as the documented ArithmeticError("FORCED EXIT ...") with limit_action="raise" after
 the evaluation limit really cut the adversary short — and then the likelihood function still holds the best point;
-limit_action="ignore"/"warn" return."""
+limit_action="ignore"/"warn" return.  40% of the cases use a rate-heterogeneity model with bins (free / gamma rate
+distribution, binned kappa): those likelihood functions own optimisable leaf definitions that are not user-visible
+parameter names, which the adversary moves like every other coordinate."""
 from __future__ import annotations
 
 import math
@@ -22,14 +24,18 @@ from .common import add_failure, bump
 MODELS = ["F81", "HKY85", "TN93", "GTR"]
 
 
-def gen_case(rng, trees):
+def gen_case(rng, trees, bin_configs=()):
     tree_s, taxa = trees[rng.choice([0, 0, 1])]
     nq = rng.choice([1, 2, 3, 4, 6, 9])
     local = rng.choice([True, False, None])
     r = rng.random()
     me = None if r < 0.25 else rng.randint(1, nq + 3)
+    cfg = rng.choice(bin_configs) if bin_configs and rng.random() < 0.4 else None
+    model = rng.choice(MODELS)
+    if cfg and cfg.get("needs") == "kappa":
+        model = "HKY85"
     return dict(
-        check="script", model=rng.choice(MODELS), tree=tree_s, taxa=taxa, start=rng.randrange(0, 2400, 3),
+        check="script", model=model, model_kw=cfg["model_kw"] if cfg else None, bins=cfg["bins"] if cfg else None, tree=tree_s, taxa=taxa, start=rng.randrange(0, 2400, 3),
         length=rng.choice([90, 150, 300]), local=local, nq=nq, split=rng.randint(0, nq) if local is None else None,
         max_evaluations=me, limit_action=rng.choice(["ignore", "warn", "raise"]), script_seed=rng.randrange(10**6),
         start_seed=rng.randrange(10**6) if rng.random() < 0.5 else None,
@@ -43,7 +49,7 @@ def run_case(case, helpers):
     from cogent3.maths import optimisers as O
 
     aln = helpers["alignment"](case["taxa"], case["start"], case["length"], False)
-    lf = helpers["mk_lf"](case["model"], case["tree"], aln, ())
+    lf = helpers["mk_lf"](case["model"], case["tree"], aln, (), case.get("model_kw"), case.get("bins"))
     if case.get("start_seed") is not None:
         helpers["random_start"](lf, random.Random(case["start_seed"]), case["model"])
     before = float(lf.lnL)
@@ -133,11 +139,12 @@ def run_case(case, helpers):
 def spec_stream(ctx, out, rng, budget, helpers, trees):
     n = min(30 * budget, 400)
     for _ in range(n):
-        case = gen_case(rng, trees)
+        case = gen_case(rng, trees, helpers.get("bin_configs", ()))
         prob, info = run_case(case, helpers)
         out["evaluations"] += 1
         mode = {True: "local", False: "global", None: "global+local"}[case["local"]]
         bump(out, "script_mode", mode)
+        bump(out, "script_bins", f"{case['model_kw'].get('ordered_param')}/{case['model_kw'].get('distribution')}/{case['bins']}" if case.get("bins") else "none")
         bump(out, "script_limit_action", case["limit_action"] + ("/cut" if info.get("cut") else "/full"))
         bump(out, "script_shown", str(min(info.get("shown", 0), 9)))
         if info.get("improved"):
